@@ -17,12 +17,12 @@ import random
 PID = 'C18'
 HARNESS = 'h_c18'
 MODEL_MODULE = 'V.C18.Model'
-READY = False
+READY = True
 ALLOWED_AXIOMS = []
 RULE = ('cases = (main flow over block/unblock(false)/unblock(true)/shutdown with never more unblocks than blocks in a prefix, '
         'callback answers, schedule = one decision per atomic step: step or arrival of signal s); quick = EXHAUSTIVE enumeration '
         '(depth-first over a python step simulator) of all schedules with <= 3 operations and <= 3 arrivals, and <= 4 operations and '
-        '<= 2 arrivals, of signal numbers {1,2} with both callback answers (thorough: <= 4 ops / 3 arrivals, <= 5 ops / 2 arrivals, '
+        '<= 2 arrivals, of signal numbers {1,2} with both callback answers (thorough: <= 5 ops / 3 arrivals, <= 3 ops / 4 arrivals, '
         '3 signal numbers), plus fixed regression shapes and random long schedules; non-trivial = at least one arrival; '
         'distinct = distinct case tuples')
 TRUSTED_BASE = ['__sync_fetch_and_add/sub/and are atomic with respect to signal handlers (one atomic step each)',
@@ -284,6 +284,9 @@ def account(c, obs):
                 stack.pop()
             else:
                 top['pc'] = 6
+                if k2 != 6:
+                    bad('nesting-count-not-restored')   # returned after a continue without the decrement
+                    stack.pop()
         elif k == 4:
             if p == 0:
                 top['pc'] = 5
@@ -440,7 +443,7 @@ def gen(seed, tier):
         spec = [(3, 3, (1, 2)), (4, 2, (1, 2))]
         nrand = 3000
     elif tier == 'thorough':
-        spec = [(4, 3, (1, 2)), (5, 2, (1, 2)), (3, 3, (1, 2, 3)), (6, 1, (1,))]
+        spec = [(5, 3, (1, 2)), (3, 4, (1, 2)), (3, 3, (1, 2, 3)), (6, 1, (1,))]
         nrand = 200000
     else:
         spec = [(2, 2, (1, 2))]
